@@ -230,13 +230,21 @@ def setup_cmd(checks):
   that a broken proof of one property cannot prevent the others from being built (each check rebuilds its
   own targets anyway and reports a failing build as a broken proof obligation)"""
   mods, drvs = [], []
+  # the checks' own declarations (MODULE / DRIVERS, including those of their helper modules), read by importing them
+  import subprocess
+  code = ("import importlib, json, sys; sys.path.insert(0, %r); out = {}\n"
+          "for c in %r:\n"
+          "  m = importlib.import_module('harness.checks.' + c)\n"
+          "  mod = m.MODULE if isinstance(m.MODULE, list) else [m.MODULE]\n"
+          "  out[c] = [mod, list(m.DRIVERS)]\n"
+          "print(json.dumps(out))") % (HERE, [c['property_id'].lower() for c in checks])
+  r = subprocess.run(['/venv/bin/python', '-c', code], stdout=subprocess.PIPE, text=True, check=True)
+  decl = json.loads(r.stdout.strip().split('\n')[-1])
   for c in checks:
-    src = open(os.path.join(HERE, 'harness', 'checks', c['property_id'].lower() + '.py')).read()
-    m = re.search(r"^MODULE\s*=\s*(.+)$", src, re.M)
-    for x in re.findall(r"'([^']+)'", m.group(1)):
+    m, d = decl[c['property_id'].lower()]
+    for x in m:
       if x not in mods: mods.append(x)
-    m = re.search(r"^DRIVERS\s*=\s*(.+)$", src, re.M)
-    for x in re.findall(r"'([^']+)'", m.group(1)):
+    for x in d:
       if 'pv_' + x not in drvs: drvs.append('pv_' + x)
   return 'cd lean && for t in ' + ' '.join(mods + drvs) + '; do lake build $t || echo "setup: target $t failed to build"; done'
 
